@@ -253,9 +253,4 @@ def runStepsX (f : Sem) (j : Job) (cl : Cluster) (cm : Comps) : SysX → List St
     | none => none
     | some x' => runStepsX f j cl cm x' rest
 
-/-- the output index a notice announces, if it is a worker's notice about an output of task `t` -/
-def noticeOf (t : Task) : Event → Option Nat
-  | .pubW _ ds => if ds.task == t then some ds.out else none
-  | _ => none
-
 end EkwVerif.Ctrl
